@@ -7,6 +7,7 @@ if [ ! -x .venv/bin/python ] || ! .venv/bin/python -c "import z3, numpy, trimesh
   rm -rf .venv
   /venv/bin/python -m venv .venv
   PIP_NO_INDEX=1 .venv/bin/pip install -q --no-index --find-links /opt/veriftools/wheels z3-solver cvc5 jsonschema
+  .venv/bin/python -c 'import sympy' 2>/dev/null || PIP_NO_INDEX=1 .venv/bin/pip install -q --no-index --find-links /opt/veriftools/wheels sympy mpmath
   echo "import site; site.addsitedir('/venv/lib/python3.12/site-packages')" > .venv/lib/python3.12/site-packages/_venv_overlay.pth
 fi
 mkdir -p scratch evidence replay
